@@ -96,3 +96,86 @@ func compareReaderModel(rep *Report, pool *DriverPool, c interface{}, dict, deli
 		rep.Violate("model-mismatch", "", "reader model (coq/RModel rrun) vs implementation: "+diff, c)
 	}
 }
+
+// ---- containers: coq/RModel/Containers.v gz_read / zl_read ----
+
+type ModelCObs struct {
+	Err    string
+	Bytes  []byte
+	Left   int
+	Hdrs   int
+	AtCtor bool
+}
+
+func (p *DriverPool) ModelC(api string, multi bool, dict []byte, hasDict bool, in []byte) (*ModelCObs, error) {
+	var req string
+	if api == "zlib" {
+		d := "N"
+		if hasDict {
+			d = hexs(dict)
+		}
+		req = "Z " + d + " " + hexs(in)
+	} else {
+		m := "0"
+		if multi {
+			m = "1"
+		}
+		req = "G " + m + " " + hexs(in)
+	}
+	ans, err := p.Ask(req)
+	if err != nil {
+		return nil, err
+	}
+	f := strings.Split(ans, " ")
+	if len(f) != 6 || f[0] != "G" {
+		return nil, fmt.Errorf("driver answered %q", trunc(ans, 200))
+	}
+	m := &ModelCObs{Err: f[1], Bytes: unhex(f[2]), AtCtor: f[5] == "1"}
+	m.Left, _ = strconv.Atoi(f[3])
+	m.Hdrs, _ = strconv.Atoi(f[4])
+	return m, nil
+}
+
+// compareContainerModel: the implementation's gzip/zlib Reader on input `in` against the container
+// model.  exact = the deflate payloads inside are streams the standard library accepts or
+// corruptions/truncations of them (so fastgo's inflater must agree with the reference inflater on the
+// verdict); the error of the first failing layer is compared by kind.
+func compareContainerModel(rep *Report, pool *DriverPool, c interface{}, api string, multi bool, dict []byte, hasDict bool, in []byte, o *RObs, left int) {
+	if pool == nil || o.Panic != "" || o.Hang || len(in) > 200000 {
+		return
+	}
+	m, err := pool.ModelC(api, multi, dict, hasDict, in)
+	if err != nil {
+		rep.Note("model driver error: " + err.Error())
+		return
+	}
+	rep.mu.Lock()
+	rep.ModelCases++
+	rep.mu.Unlock()
+	rep.Count("cmodel:" + m.Err)
+	got := o.Err
+	if o.CtorErr != "" {
+		got = o.CtorErr
+	}
+	diff := ""
+	switch {
+	case !isPrefix(o.Bytes, m.Bytes):
+		diff = fmt.Sprintf("the %d bytes handed out are not a prefix of the model's %d bytes (first difference at %d)", len(o.Bytes), len(m.Bytes), firstDiff(o.Bytes, m.Bytes))
+	case got == "EOF" && m.Err != "EOF":
+		diff = "the implementation ended with io.EOF, the model with " + m.Err
+	case m.Err == "EOF" && (got != "EOF" || !bytes.Equal(o.Bytes, m.Bytes)):
+		diff = fmt.Sprintf("the model reads %d bytes then io.EOF; the implementation %d bytes then %s", len(m.Bytes), len(o.Bytes), got)
+	case m.Err == "EOF" && left >= 0 && left != m.Left:
+		diff = fmt.Sprintf("after io.EOF %d bytes are left in the source, the model leaves %d", left, m.Left)
+	case m.Err != "EOF" && got != m.Err && !(m.Err == "CORRUPT" && got == "UEOF") && !(m.Err == "UEOF" && got == "CORRUPT"):
+		// (a corrupt deflate stream may be reported as unexpected EOF or vice versa when the input ends
+		// before the implementation reaches the defect: the flate-level checks bound that)
+		diff = fmt.Sprintf("error kind: model %s, implementation %s", m.Err, got)
+	}
+	if diff != "" {
+		rep.mu.Lock()
+		rep.ModelDiffs++
+		rep.mu.Unlock()
+		rep.Violate("model-mismatch", "", "container model (coq/RModel/Containers.v) vs implementation: "+diff, c)
+	}
+}
